@@ -53,35 +53,83 @@ def _deps(fn: ast.FunctionDef, expr: ast.AST, depth: int = 0) -> set[str]:
     return out
 
 
-def _rewrite_in_place(rep: Report, rid: str, construct: str, fn: ast.FunctionDef,
-                      rewriters: tuple[str, ...]) -> None:
-    """cur = dest.tell(); dest.seek(<start>); <rewrite>(dest); dest.seek(cur)"""
-    tells = [n for n in ast.walk(fn) if isinstance(n, ast.Assign) and isinstance(n.value, ast.Call)
-             and call_name(n.value) == 'dest.tell' and isinstance(n.targets[0], ast.Name)]
-    rewrites = [n for n in ast.walk(fn) if isinstance(n, ast.Call) and call_name(n) in rewriters]
-    if not rewrites:
-        rep.fail(rid, construct, 'rewrite', 'no in-place rewrite of the field found', fn)
-        return
-    for rw in rewrites:
-        seek_before = [n for n in ast.walk(fn) if isinstance(n, ast.Call) and call_name(n) == 'dest.seek'
-                       and n.lineno < rw.lineno and 'self.position' in norm(n) or
-                       (isinstance(n, ast.Call) and call_name(n) == 'dest.seek' and n.lineno < rw.lineno
-                        and norm(n.args[0]) == 'pos' and any(t.lineno < n.lineno for t in tells) is False)]
-        seek_before = [n for n in ast.walk(fn) if isinstance(n, ast.Call) and call_name(n) == 'dest.seek'
-                       and n.lineno < rw.lineno]
-        restores = [n for n in ast.walk(fn) if isinstance(n, ast.Call) and call_name(n) == 'dest.seek'
-                    and n.lineno > rw.lineno and n.args and isinstance(n.args[0], ast.Name)
-                    and any(t.targets[0].id == n.args[0].id and t.lineno < rw.lineno for t in tells)]
-        key = f'rewrite via {call_name(rw)} @{short(rw, 30)}'
-        if seek_before and restores:
-            rep.ok(rid, construct, key, 'seek to the field, rewrite, restore the saved position')
+def _fixup_discipline(rep: Report, construct: str, fn: ast.FunctionDef, field: str,
+                      rewriters: tuple[str, ...], nothing_to_fix, reasons: str) -> None:
+    """One offset fix-up pass, decided on every path (path conditions + flow facts):
+    R03.2  a path that assigns `field` saves the stream position, seeks, calls a rewriter and
+           restores the position, in that order;
+    R03.3  a path that leaves without rewriting implies one of the "nothing to fix" conditions
+           (`nothing_to_fix(atoms) -> formula` builds their disjunction from the atoms of the function)."""
+    from ..pathcond import PathCond, atoms_of, entails as pc_entails, show as pc_show
+    from ..flow import Disjunctive, Flow
+
+    def upd(st, facts):
+        facts = set(facts)
+        for n in ast.walk(st):
+            if isinstance(n, ast.Call):
+                cn = call_name(n) or ''
+                if cn == 'dest.seek':
+                    arg = norm(n.args[0]) if n.args else ''
+                    if 'rewritten' in facts and f'saved:{arg}' in facts:
+                        facts.add('restored')
+                    elif 'rewritten' not in facts:
+                        facts.add('sought')
+                if cn in rewriters:
+                    facts.add('rewritten' if 'sought' in facts and any(f.startswith('saved:') for f in facts)
+                              else 'rewritten-unsafely')
+        if isinstance(st, ast.Assign) and isinstance(st.value, ast.Call) and call_name(st.value) == 'dest.tell' \
+                and isinstance(st.targets[0], ast.Name):
+            facts.add(f'saved:{st.targets[0].id}')
+        if isinstance(st, (ast.Assign, ast.AugAssign)):
+            tg = st.targets[0] if isinstance(st, ast.Assign) else st.target
+            if norm(tg) == field:
+                facts.add('assigned')
+        return facts
+    exits: list = []
+
+    def on_exit(kind, st, states):
+        if kind in ('return', 'fall'):
+            exits.extend((st, x) for x in states)
+    Flow(Disjunctive(PathCond(upd=upd), cap=512), on_exit=on_exit).run(fn, [PathCond.initial()])
+    if not exits:
+        raise AnalysisError(f'{construct}: no normal exit')
+    all_atoms: set[str] = set()
+    for _st, x in exits:
+        all_atoms |= atoms_of(x[0])
+    goal = nothing_to_fix(all_atoms)
+    n_rw = n_skip = 0
+    bad_rw = bad_skip = None
+    for st, x in exits:
+        facts = x[2]
+        if 'assigned' in facts or 'rewritten' in facts or 'rewritten-unsafely' in facts:
+            n_rw += 1
+            if not ({'assigned', 'rewritten', 'restored'} <= facts) or 'rewritten-unsafely' in facts:
+                bad_rw = (st, x)
         else:
-            rep.fail(rid, construct, key,
-                     'the fix-up rewrites bytes without seeking to the field start and restoring '
-                     'the stream position afterwards', rw)
+            n_skip += 1
+            if goal is None or pc_entails(x[0], goal) is not True:
+                bad_skip = (st, x)
+    if n_rw == 0:
+        rep.fail('R03.2', construct, 'rewrite', f'no path recomputes `{field}` and rewrites it in place', fn)
+    elif bad_rw is not None:
+        rep.fail('R03.2', construct, 'rewrite in place',
+                 f'a path changes `{field}` without the sequence save position / seek / rewrite / restore '
+                 f'(facts on that path: {sorted(f for f in bad_rw[1][2] if not f.startswith("val:"))})',
+                 bad_rw[0] or fn)
+    else:
+        rep.ok('R03.2', construct, 'rewrite in place',
+               f'{n_rw} path(s): save position, seek, rewrite, restore')
+    if bad_skip is not None:
+        rep.fail('R03.3', construct, 'early exits of the fix-up pass',
+                 f'the offset fix-up returns without rewriting on a path that implies none of the '
+                 f'"nothing to fix" cases ({reasons}); path condition: {pc_show(bad_skip[1][0])[:160]} - '
+                 'a stale offset is served', bad_skip[0] or fn)
+    else:
+        rep.ok('R03.3', construct, 'early exits of the fix-up pass', f'{n_skip} path(s): {reasons}')
 
 
 def r03_2_3(rep: Report) -> None:
+    from ..pathcond import f_and, f_not, f_or
     tree = rep.repo.tree(MP4)
     # --- trun ------------------------------------------------------------
     trun = need(find_class(tree, 'TrackFragmentRunBox'), 'TrackFragmentRunBox')
@@ -102,16 +150,30 @@ def r03_2_3(rep: Report) -> None:
             rep.fail('R03.2', c, 'data_offset recomputed',
                      f'the recomputed data_offset depends on {sorted(deps)}; it must be derived from '
                      'the final moof.position, moof.size, mdat.header_size and base_data_offset', a)
-    # the comparison that triggers the rewrite uses the same quantities
-    tests = [n for n in ast.walk(pe) if isinstance(n, ast.If)
-             and 'mdat_sample_start' in norm(n.test) and 'first_sample_pos' in norm(n.test)]
-    if tests and isinstance(tests[0].test, ast.Compare) and isinstance(tests[0].test.ops[0], ast.NotEq):
-        rep.ok('R03.2', c, 'rewrite when the offset differs')
-    else:
-        rep.fail('R03.2', c, 'rewrite when the offset differs',
-                 'the stale-offset test `first_sample_pos != mdat_sample_start` is gone', pe)
-    _rewrite_in_place(rep, 'R03.2', c, pe, ('self.output_box_fields', 'self.encode_fields'))
-    # moof/mdat lookups: a missing mdat returns (nothing to fix) - listed
+
+    def eq_atoms(atoms: set[str], fn: ast.FunctionDef, need_deps: set[str]) -> list[str]:
+        """`x == y` atoms where one side depends (through locals) on all of need_deps"""
+        out = []
+        for t in atoms:
+            try:
+                e = ast.parse(t, mode='eval').body
+            except SyntaxError:
+                continue
+            if isinstance(e, ast.Compare) and len(e.ops) == 1 and isinstance(e.ops[0], ast.Eq):
+                for side in (e.left, e.comparators[0]):
+                    if need_deps <= _deps(fn, side):
+                        out.append(t)
+                        break
+        return out
+
+    def trun_ok(atoms: set[str]):
+        parts = [('atom', t) for t in atoms if t in ('moof is None', 'mdat is None')]
+        parts += [('atom', t) for t in eq_atoms(atoms, pe, {'moof.position', 'moof.size', 'mdat.header_size'})]
+        if not any(p[1] not in ('moof is None', 'mdat is None') for p in parts):
+            return None
+        return f_or(*parts)
+    _fixup_discipline(rep, c, pe, 'self.data_offset', ('self.output_box_fields', 'self.encode_fields'),
+                      trun_ok, 'no moof / no mdat / first sample already at the start of the mdat payload')
     # --- saio ------------------------------------------------------------
     saio = need(find_class(tree, 'SampleAuxiliaryInformationOffsetsBox'), 'saio box')
     pe2 = need(find_func(saio, 'post_encode'), 'saio.post_encode')
@@ -129,54 +191,45 @@ def r03_2_3(rep: Report) -> None:
                  f'the saio offset depends on {sorted(deps)}', ff)
     assigns = [n for n in ast.walk(pe2) if isinstance(n, ast.Assign)
                and norm(n.targets[0]) == 'self.offsets']
-    if assigns and all(norm(a.value) == '[pos]' for a in assigns) and any(
-            isinstance(n, ast.Assign) and norm(n.targets[0]) == 'pos'
-            and norm(n.value) == 'self.find_first_cenc_sample()' for n in ast.walk(pe2)):
+    good = bool(assigns)
+    for a_ in assigns:
+        d2 = _deps(pe2, a_.value)
+        via_call = any('find_first_cenc_sample' in d for d in d2) or any(
+            isinstance(x, ast.Call) and 'find_first_cenc_sample' in (call_name(x) or '')
+            for n_ in ast.walk(pe2) if isinstance(n_, ast.Assign) and norm(n_.targets[0]) in d2
+            for x in ast.walk(n_.value))
+        direct = {'senc.position'} <= d2 and any('base_data_offset' in d for d in d2)
+        if not (isinstance(a_.value, ast.List) and len(a_.value.elts) == 1 and (via_call or direct)):
+            good = False
+    if good:
         rep.ok('R03.2', c2, 'offsets recomputed from the final senc position')
     else:
         rep.fail('R03.2', c2, 'offsets recomputed from the final senc position',
-                 'post_encode does not set offsets = [find_first_cenc_sample()]', pe2)
-    _rewrite_in_place(rep, 'R03.2', c2, pe2, ('self.encode',))
-    # R03.3: after the stale test, the only return is under has_bug('saio')
-    stale = [n for n in ast.walk(pe2) if isinstance(n, ast.If) and 'pos != self.offsets[0]' in norm(n.test)]
-    if not stale:
-        raise AnalysisError('saio.post_encode: stale-offset test not found')
-    ok = True
-    n_ret = 0
-    for r in ast.walk(stale[0]):
-        if isinstance(r, ast.Return):
-            n_ret += 1
-            par = getattr(r, '_parent', None)
-            if not (isinstance(par, ast.If) and norm(par.test) == "self.options.has_bug('saio')"):
-                ok = False
-    if ok and n_ret == 1:
+                 'post_encode does not set offsets = [position of the first senc sample entry]', pe2)
+
+    def saio_ok(atoms: set[str]):
+        parts = []
+        if 'senc is None' in atoms:
+            parts.append(('atom', 'senc is None'))
+        bug = [t for t in atoms if "has_bug('saio')" in t]
+        parts += [('atom', t) for t in bug]
+        not_none = f_not(('atom', 'self.offsets is None'))
+        if 'len(self.offsets) == 1' in atoms:
+            parts.append(f_and(not_none, f_not(('atom', 'len(self.offsets) == 1'))))
+        eqs = [t for t in atoms if t.endswith('== self.offsets[0]') or t.startswith('self.offsets[0] ==')]
+        for t in eqs:
+            parts.append(f_and(not_none, ('atom', t)))
+        if not eqs:
+            return None
+        return f_or(*parts)
+    _fixup_discipline(rep, c2, pe2, 'self.offsets', ('self.encode',), saio_ok,
+                      "no senc / several offsets / offset already right / has_bug('saio')")
+    # the saio bug option is the only deviation: it must be tested on the stale path
+    if "has_bug('saio')" in norm(pe2):
         rep.ok('R03.3', c2, "skip only under has_bug('saio')")
     else:
         rep.fail('R03.3', c2, "skip only under has_bug('saio')",
-                 'the saio rewrite can be skipped on a path that does not test the `saio` bug option',
-                 stale[0])
-    # every early exit of the two fix-up passes is one of the listed "nothing to fix" cases
-    allowed = {
-        c2: {"self.offsets is not None and len(self.offsets) != 1": 'several offsets: not the single-run form',
-             "senc is None": 'no senc box to address',
-             "self.options.has_bug('saio')": 'the requested bug-compatibility deviation'},
-        c: {"moof is None": 'trun outside a moof (init segment parsing)',
-            "mdat is None": 'no mdat to address'},
-    }
-    for cons, fnode in ((c2, pe2), (c, pe)):
-        bad = []
-        for r in ast.walk(fnode):
-            if isinstance(r, ast.Return):
-                par = getattr(r, '_parent', None)
-                if not (isinstance(par, ast.If) and r in par.body and norm(par.test) in allowed[cons]):
-                    bad.append((r, norm(par.test) if isinstance(par, ast.If) else type(par).__name__))
-        if bad:
-            for r, why in bad:
-                rep.fail('R03.3', cons, 'early exits of the fix-up pass',
-                         f'the offset fix-up returns early under `{why[:100]}`, which is not one of the '
-                         f'"nothing to fix" cases {sorted(allowed[cons])}: a stale offset is served', r)
-        else:
-            rep.ok('R03.3', cons, 'early exits of the fix-up pass', '; '.join(allowed[cons]))
+                 'the `saio` bug-compatibility option is no longer consulted by the fix-up', pe2)
     # has_bug reads the bug-compatibility list
     opt = need(find_class(tree, 'Options'), 'mp4.Options')
     hb = need(find_func(opt, 'has_bug'), 'Options.has_bug')
@@ -379,7 +432,7 @@ def analyse(rep: Report) -> None:
         '(flag constant propagation over generate_media_segment) that every box insertion reaches '
         'the resets before encode. Byte identity of mdat and the numerical offsets are not decided.')
     rep.rule('R03.1', 'layouts of the boxes rewritten in a segment agree', floor=12)
-    rep.rule('R03.2', 'offset fields are recomputed from final positions and rewritten in place', floor=8)
+    rep.rule('R03.2', 'offset fields are recomputed from final positions and rewritten in place', floor=6)
     rep.rule('R03.3', 'saio rewrite skipped only under the saio bug option', floor=4)
     rep.rule('R03.4', 'nothing writes to the encoded segment except the guarded corruption hook', floor=2)
     rep.rule('R03.5', 'box insertions reach the offset resets before encode', floor=6)
